@@ -212,6 +212,10 @@ func (store *Store) RevertTransaction(ctx context.Context, id uint64, at time.Ti
 }
 
 func (store *Store) UpdateTransactionMetadata(ctx context.Context, id uint64, m metadata.Metadata, at time.Time) (tx *ledger.Transaction, modified bool, err error) {
+	if m == nil {
+		// a nil map is rendered as the JSON value null, and `metadata || 'null'` turns the column into an array
+		m = metadata.Metadata{}
+	}
 	_, err = tracing.TraceWithMetric(
 		ctx,
 		"UpdateTransactionMetadata",
